@@ -85,6 +85,48 @@ def replay(ctx, beh, label, spin=False):
     return st, js
 
 
+def jsonpath(ctx, only=None):
+    """spec/JsonPath.tla: structured paths inside one JSON document (array indexes, -1, nested members)."""
+    import json
+    mc = ("---- MODULE MC_%s ----\nEXTENDS JsonPath, Json\n"
+          "Emit == [][PrintT(<<\"TR\", ToJson([steps |-> hist'])>>)]_vars\n====\n")
+    if only is not None:
+        beh = ctx.scratch + "/jp_replay.ndjson"
+        open(beh, "w").write(json.dumps(only) + "\n")
+        r = {"distinct": 0, "generated": 0}
+    else:
+        r = ctx.tlc("jsonpath", ["JsonPath.tla"], mc % "jsonpath", "SPECIFICATION Spec\n" +
+                    cfg_consts(MaxLen=ctx.pick(2, 3), JdelTestsWith="write-path") +
+                    "VIEW View\nPROPERTY NegativeChangesNothing JdelMeansGone Emit\n", workers=4, timeout=900)
+        if not r["ok"]:
+            raise common.Infra("JsonPath (as coded) violates %s" % r["violated"])
+        r2 = ctx.tlc("jsonpath_dev", ["JsonPath.tla"], mc % "jsonpath_dev", "SPECIFICATION Spec\n" +
+                     cfg_consts(MaxLen=2, JdelTestsWith="read-path") + "VIEW View\nPROPERTY JdelMeansGone\n",
+                     workers=4, timeout=600, expect_violation=True)
+        if r2["violated"] != "JdelMeansGone":
+            raise common.Infra("JsonPath: a JDEL that tests the path with the read syntax is not refuted (vacuous)")
+        beh = r["dir"] + "/beh.ndjson"
+        ctx.extract_tr(r["out"], beh)
+    rc, js, err = ctx.harness(["json-replay", "-in", beh, "-par", "8"], timeout=1800)
+    st = js["stats"]
+    ctx.log("json paths: TLC %d documents, %d transitions (NegativeChangesNothing, JdelMeansGone; refuted when JDEL tests the path "
+            "with the read syntax); %d behaviours / %d steps replayed (%d command x path kinds), %d mismatches"
+            % (r["distinct"], r["generated"], st["behaviours"], st["steps"], st["kinds"], len(js.get("mismatches") or [])))
+    lines = open(beh).read().split("\n")
+    groups = {}
+    for m in js.get("mismatches") or []:
+        b = json.loads(lines[m["behaviour"]])
+        s_ = b["steps"][m["step"]]
+        groups.setdefault((m["what"], s_["op"], s_["p"]), []).append((m, b))
+    for (what, op, path), ms in sorted(groups.items()):
+        m, b = ms[0]
+        common.report(ctx, "c01-jsonpath-%s-%s-%s" % (what, op, path), "json path %s mismatch (%d behaviours): %s" % (what, len(ms), m["detail"]),
+                      {"kind": "jsonpath", "behaviour": b})
+    if only is None and (st["steps"] == 0 or st["kinds"] < 25):
+        raise common.Infra("json path replay did not exercise the command x path kinds (vacuous): %s" % st)
+    return r, st
+
+
 def run(ctx):
     if ctx.replay:
         return run_replay(ctx)
@@ -119,6 +161,12 @@ def run(ctx):
     states += r["distinct"]
     trans += n
     acc(*replay(ctx, beh, "json"))
+    # 2c. structured paths inside a document (arrays, -1, nested members)
+    jr, jst = jsonpath(ctx)
+    states += jr["distinct"]
+    trans += jr["generated"]
+    total["behaviours"] += jst["behaviours"]
+    total["steps"] += jst["steps"]
     if not ctx.quick:
         # 3. thorough: a richer one-key alphabet (kinds, equal-but-different values, two updates per command)
         r, beh, n = bfs(ctx, "rich", 1, 2, ["g:P1", "g:GE", "g:S1"], 1,
@@ -158,6 +206,9 @@ def run(ctx):
 def run_replay(ctx):
     import json
     p = json.load(open(ctx.replay))
+    if p.get("kind") == "jsonpath":
+        jsonpath(ctx, only=p["behaviour"])
+        return
     beh = ctx.scratch + "/replay.ndjson"
     open(beh, "w").write(p["behaviour"] + "\n")
     replay(ctx, beh, "replay")
